@@ -1,9 +1,112 @@
 import Driver.Util
+import MpcVerif.Model.Mpa
+import MpcVerif.Model.Fold
 
 namespace Drv.C12
+open Mpc Mpc.Mpa Mpc.Fold
 
-/-- Line-protocol handler of property C12 (stub). -/
-def handle (_args : List String) : String := "bad-op"
+def hexNat (n : Nat) : String := String.ofList (Nat.toDigits 16 n)
+
+def hexInt (v : Int) : String := if v < 0 then "-" ++ hexNat v.natAbs else hexNat v.natAbs
+
+/-- operand spec `n:<int64>:<bits>` (NewInt) or `p:<decimal>:<bits>` (Parse, then SetTypeSize when bits > 0) -/
+def parseSpec (s : String) : Option MInt :=
+  match s.splitOn ":" with
+  | [k, v, b] => do
+    let v ← v.toInt?
+    let b ← b.toNat?
+    if k == "n" then some (newInt (BitVec.ofInt 64 v) b)
+    else if k == "p" then
+      let z := setBig v
+      some (if b > 0 then { z with bits := b } else z)
+    else none
+  | _ => none
+
+def observe (z : MInt) : Option String := do
+  let i ← z.int64
+  let n := min z.bits 136
+  let lo := (List.range n).foldl (fun acc k => if z.bit k then acc + 2 ^ k else acc) 0
+  pure s!"bits={z.bits} s={z.value} t={hexInt z.value} bl={z.bitLen} i={i.toInt} sg={z.sign} lo={hexNat lo}"
+
+def mpaLine (args : List String) : String :=
+  match args with
+  | [op, n, zmode, zbits, xs, ys] =>
+    match n.toNat?, zbits.toNat?, parseSpec xs, parseSpec ys with
+    | some n, some zbits, some x, some y =>
+      let alias := zmode == "x"
+      let z? : Option MInt := if alias then some x else Mpa.new zbits
+      let r : Option String := do
+        let z ← z?
+        if op == "obs" then
+          let s ← observe x
+          pure ("ok " ++ s)
+        else if op == "cmp" then
+          let c ← Mpa.cmp x y
+          pure s!"ok c={c}"
+        else
+          let res ← (match op with
+            | "add" => Mpa.add z x y
+            | "sub" => Mpa.sub z x y
+            | "mul" => Mpa.mul z x y
+            | "div" => Mpa.div z x y
+            | "mod" => Mpa.mod z x y
+            | "and" => Mpa.and z x y
+            | "or" => Mpa.or z x y
+            | "xor" => Mpa.xor z x y
+            | "andnot" => Mpa.andNot z x y
+            | "lsh" => Mpa.lsh z x n
+            | "rsh" => Mpa.rsh z x n alias
+            | _ => none)
+          let s ← observe res
+          let c ← Mpa.cmp res y
+          pure s!"ok {s} c={c}"
+      r.getD "panic"
+    | _, _, _, _ => "bad-op"
+  | _ => "bad-op"
+
+def parseKind (s : String) : Option Kind :=
+  if s == "s" then some .int else if s == "u" then some .uint else if s == "b" then some .bool else none
+
+def parseForm (s : String) : Option Form :=
+  if s == "pos" then some .pos else if s == "cast" then some .cast else if s == "neg" then some .neg else none
+
+def resStr {α} (f : α → String) : Res α → String
+  | .ok a => "ok " ++ f a
+  | .error .compileError => "error"
+  | .error .panic => "panic"
+
+def cvStr : CV → String
+  | .bool b => if b then "b 1" else "b 0"
+  | .int t v => s!"{if t.kind == .int then "i" else "u"} {t.bits} {t.minBits} {v.bits} {v.value}"
+
+/-- `fold <op> <s|u|b> <n> <a> <b> <aform> <bform>`: the folded constant. -/
+def foldLine (args : List String) (ret : Bool) : String :=
+  match args with
+  | [op, k, n, a, b, af, bf] =>
+    match Fold.parseOp op, parseKind k, n.toNat?, a.toInt?, b.toInt?, parseForm af, parseForm bf with
+    | some op, some k, some n, some a, some b, some af, some bf =>
+      let r := foldExpr op k n a b af bf
+      if ret then resStr hexNat (r >>= retSeen k n) else resStr cvStr r
+    | _, _, _, _, _, _, _ => "bad-op"
+  | _ => "bad-op"
+
+/-- `rt <op> <s|u|b> <n> <a> <b>`: meaning of the run-time instruction. -/
+def rtLine (args : List String) : String :=
+  match args with
+  | [op, k, n, a, b] =>
+    match Fold.parseOp op, parseKind k, n.toNat?, a.toInt?, b.toInt? with
+    | some op, some k, some n, some a, some b => "ok " ++ hexNat (circuitOpNat op k n a b)
+    | _, _, _, _, _ => "bad-op"
+  | _ => "bad-op"
+
+/-- Line protocol of property C12: `c12 <kind> <args...>`. -/
+def handle (args : List String) : String :=
+  match args with
+  | "mpa" :: rest => mpaLine rest
+  | "fold" :: rest => foldLine rest false
+  | "cret" :: rest => foldLine rest true
+  | "rt" :: rest => rtLine rest
+  | _ => "bad-op"
 
 end Drv.C12
 
